@@ -183,7 +183,7 @@ def build_fem(case):
                          data=np.array([[num_float(v) for v in p] for _, p in case['nodes']], dtype=float), silent=True)
     el = {t: FEMAttribute(t, ids=np.array([e for e, _ in b], dtype=np.int64), data=np.array([c for _, c in b], dtype=np.int64),
                           silent=True) for t, b in case['blocks'].items()}
-    fd = X.quiet(lambda: FEMData(nodes=nodes, elements=FEMElementalAttribute('ELEMENT', el)))
+    fd = X.quiet(lambda: FEMData(nodes=nodes, elements=FEMElementalAttribute('ELEMENT', G.insertion_order(el))))
     eg = {}
     if case['has_all']:
         eg['ALL'] = fd.elements.ids
